@@ -23,6 +23,8 @@ Feats == 1..NFeat
 \* value alphabets (cfg: Values <- ...): characters 1 = "1", 2 = "a"
 Adversarial == {<<>>, <<1>>, <<1, 1>>, <<2>>, <<1, 2>>}      \* "", "1", "11", "a", "1a"
 Digits == {<<>>, <<1>>, <<1, 1>>}
+\* character 3 = a candidate separator character (":", ",", "|", " ", "-", NUL, ... chosen by the harness)
+Delims == {<<>>, <<3>>, <<1, 3>>, <<3, 1>>, <<1>>, <<3, 3>>}
 Rows == 1..NRows
 
 \* itertools.combinations(range(NFeat), Order) in lexicographic order, as strictly increasing sequences
